@@ -187,6 +187,84 @@ fn gen_sched(rng: &mut Rng, n: usize, len: usize) -> Vec<String> {
     acts
 }
 
+/// "Recovery removes only the files of an authority that is really gone", with three parties: the
+/// leftovers of a crashed authority (lock + meta of a dead pid), a recoverer inside the stale
+/// cleanup, and a newcomer that becomes the authority and publishes its endpoint while the recoverer
+/// is parked at one of the cleanup's yield points. Whatever the recoverer does afterwards, the
+/// newcomer - alive, holding the lock - keeps its lock.json and its meta.json.
+fn live_files_case(rep: &mut Report, park_at: &'static str) {
+    let scratch = Scratch::new("c18live");
+    let data_dir = scratch.path().join("data");
+    let ws = scratch.path().join("ws");
+    std::fs::create_dir_all(authority_dir(&data_dir)).unwrap();
+    std::fs::create_dir_all(&ws).unwrap();
+    let dead = dead_pid();
+    let rec = json!({"pid": dead, "started_at_ms": 1, "workspace_root": ws.to_string_lossy()});
+    std::fs::write(authority_lock_path(&data_dir), format!("{rec}\n")).unwrap();
+    let meta = json!({"endpoint": "http://127.0.0.1:1", "pid": dead, "started_at_ms": 1, "workspace_root": ws.to_string_lossy()});
+    std::fs::write(authority_meta_path(&data_dir), meta.to_string()).unwrap();
+    let holding = Arc::new(AtomicUsize::new(0));
+    let (d0, d1, w1, h1) = (data_dir.clone(), data_dir.clone(), ws.clone(), holding.clone());
+    let workers: Vec<Box<dyn FnOnce() + Send>> = vec![
+        Box::new(move || {
+            let _ = try_cleanup_stale_authority_files(&d0, dead, 1);
+        }),
+        Box::new(move || {
+            if let Ok(guard) = AuthorityLockGuard::try_acquire(&d1, &w1) {
+                let _ = guard.write_meta("http://127.0.0.1:9");
+                h1.store(1, Ordering::SeqCst);
+                sched::point("h.holding");
+                drop(guard);
+            }
+        }),
+    ];
+    let mut s = Scheduler::new(workers);
+    for _ in 0..30 {
+        if s.where_is(0) == park_at || s.finished[0] {
+            break;
+        }
+        s.step(0);
+    }
+    for _ in 0..30 {
+        if s.where_is(1) == "h.holding" || s.finished[1] {
+            break;
+        }
+        s.step(1);
+    }
+    for _ in 0..30 {
+        if s.finished[0] {
+            break;
+        }
+        s.step(0);
+    }
+    let held = holding.load(Ordering::SeqCst) == 1 && s.where_is(1) == "h.holding";
+    let me = std::process::id() as u64;
+    let pid_in = |p: PathBuf| -> Option<u64> { std::fs::read_to_string(p).ok().and_then(|t| serde_json::from_str::<Value>(&t).ok()).and_then(|v| v["pid"].as_u64()) };
+    let (lock_pid, meta_pid) = (pid_in(authority_lock_path(&data_dir)), pid_in(authority_meta_path(&data_dir)));
+    rep.evaluations += 1;
+    rep.traces_validated += 1;
+    rep.count(&format!("live_files_cases_newcomer_{}", if held { "became_authority" } else { "was_refused" }));
+    rep.nontrivial_case(&format!("live-files|{park_at}|{held}"));
+    if held {
+        for (file, pid) in [("lock.json", lock_pid), ("meta.json", meta_pid)] {
+            if pid != Some(me) {
+                rep.oracle_failure(
+                    &format!("C18|recovery-removed-a-file-of-a-live-authority|{file}|recoverer-parked-at-{park_at}"),
+                    &format!("a recoverer of dead pid {dead} was parked at {park_at} while a newcomer became the authority and published its endpoint; after the recoverer finished, the live authority's {file} holds pid {pid:?} (expected {me})"),
+                    json!({"init": "stalemeta", "recoverer_parked_at": park_at, "file": file}),
+                );
+            }
+        }
+    }
+    for _ in 0..30 {
+        if s.finished[1] {
+            break;
+        }
+        s.step(1);
+    }
+    s.finish();
+}
+
 pub fn run(opts: &Opts) -> Report {
     let mut rep = Report::new(
         "C18",
@@ -194,6 +272,9 @@ pub fn run(opts: &Opts) -> Report {
     );
     let mut model = Model::spawn();
     let mut rng = Rng::new(opts.seed);
+    for park_at in ["start", "auth.stale.reread", "auth.stale.rename", "auth.stale.meta"] {
+        live_files_case(&mut rep, park_at);
+    }
     // corpus: the counterexample of Rip.Cex.C18.two_authorities, replayed on the real functions
     let cex: Vec<String> = "s0 s1 s0 s1 s0 s1 s0 s0 s0 s0 s1 s1 s1 s1".split(' ').map(|s| s.to_string()).collect();
     let mut cases: Vec<(String, usize, Vec<String>)> = vec![("stale".into(), 2, cex.clone()), ("stalemeta".into(), 2, cex)];
